@@ -29,3 +29,11 @@ def gen(rng, tier):
         else:
             cases.append(queues.fill_steal_fill(rng))
     return cases
+
+PINNED = ['C05_holds', 'C05_wf_needed']
+LEVEL_TEXT = 'Theorem over all well-formed histories: every popped item is the (priority, arrival) minimum of the container it is taken from, and a single worker with at most `cap` queued pops the stable minimum of everything pending (refinement of the rings to a priority-bucketed pending list), for all i64 priorities. Tied to the code by lockstep histories with extremes and ties.'
+LEVEL_NOTE = ("Trusted: Coq kernel + vm_compute; hand transcription of ordered_work_steal.rs (model OWS.v) validated on the "
+              "sampled histories only; st3 rings / crossbeam injectors / skiplist modelled as FIFO lists and a sorted map; "
+              "sequential histories (one call at a time); the steal start index is an input via the build.rs import "
+              "rewrite. The plain WorkStealQueue is not modelled. No axioms (closed under the global context).")
+TECHNIQUE = "Coq proof (invariants over all histories of a Gallina model) + lockstep differential correspondence inside Coq"
